@@ -79,6 +79,10 @@ def case(g, tier, ci):
         if ci % 4 == 1:
             # a refused addFlags (one illegal value) leaves the channel's flags as they were (set or not set)
             ops += [{"op": "el.addFlags", "id": "a", "ch": chans[0], "flags": [enc(2), enc("T"), enc("X"), enc(0)]}]
+        if ci % 3 == 2:
+            # flags taken from a numpy table (np.int64 / np.uint8 values): stored, described and written as plain integers
+            ops += [{"op": "el.addFlags", "id": "a", "ch": chans[-1], "flags": [enc(r.choice([0, 1, 2, 3, 4])) for _ in range(4)],
+                     "_as": r.choice(["npint", "npuint8"])}]
         if ci % 2 == 0:
             # the original has been inspected before it is written (the getters run the validation)
             ops += [{"op": r.choice(["el.SR", "el.points", "el.duration"]), "id": "a"}]
